@@ -9,6 +9,7 @@ import (
 	"math"
 	"net/http"
 	"net/http/httptest"
+	"runtime"
 	"sort"
 	"strconv"
 	"strings"
@@ -29,7 +30,125 @@ import (
 
 func c22ValueString(l sLabelSet) string { return l.oracle()[0] }
 
+// holdingWriter lets its first Write wait until released before it reads the bytes: what a slow
+// client's connection does to a handler.
+type holdingWriter struct {
+	hdr     http.Header
+	parts   [][]byte
+	started chan struct{}
+	release chan struct{}
+	once    bool
+}
+
+func (w *holdingWriter) Header() http.Header { return w.hdr }
+func (w *holdingWriter) WriteHeader(int)     {}
+func (w *holdingWriter) Write(p []byte) (int, error) {
+	if !w.once {
+		// the client takes its time: the bytes are read when it gets round to it, which is still
+		// inside this call (a Write may read p until it returns, and may not keep it after)
+		w.once = true
+		close(w.started)
+		<-w.release
+	}
+	w.parts = append(w.parts, append([]byte(nil), p...))
+	return len(p), nil
+}
+func (w *holdingWriter) text() string {
+	var b strings.Builder
+	for _, p := range w.parts {
+		b.Write(p)
+	}
+	return b.String()
+}
+
+// c22Overlap: a scrape of one text page is held up in its first write while another page is
+// scraped and completed; the held-up response, read after its release, is the page a scrape
+// alone gives.  One P, so that whatever the handlers recycle is recycled between them.
+func c22Overlap(first, second string, nsets int) (bool, string) {
+	s := metrics.NewStore()
+	m := metrics.NewMetric("req", "prog", metrics.Counter, metrics.Int, "k")
+	for j := 0; j < nsets; j++ {
+		d, _ := m.GetDatum(fmt.Sprintf("v%d", j))
+		datum.SetInt(d, int64(100+j), time.Unix(1, 0))
+	}
+	_ = s.Add(m)
+	ctx, cancel := context.WithCancel(context.Background())
+	defer cancel()
+	e, err := exporter.New(ctx, s, exporter.Hostname("h"))
+	if err != nil {
+		return false, err.Error()
+	}
+	page := func(which string, w http.ResponseWriter) {
+		req := httptest.NewRequest(http.MethodGet, "/x", nil)
+		if which == "varz" {
+			e.HandleVarz(w, req)
+		} else {
+			e.HandleGraphite(w, req)
+		}
+	}
+	stripTimes := func(t string) string {
+		// graphite lines end in the scrape's own clock reading
+		var out []string
+		for _, l := range strings.Split(t, "\n") {
+			f := strings.Fields(l)
+			if first == "graphite" && len(f) == 3 {
+				l = f[0] + " " + f[1]
+			}
+			out = append(out, l)
+		}
+		return strings.Join(out, "\n")
+	}
+	alone := httptest.NewRecorder()
+	page(first, alone)
+	old := runtime.GOMAXPROCS(1)
+	defer runtime.GOMAXPROCS(old)
+	hw := &holdingWriter{hdr: http.Header{}, started: make(chan struct{}), release: make(chan struct{})}
+	done := make(chan struct{})
+	go func() { defer close(done); page(first, hw) }()
+	select {
+	case <-hw.started:
+	case <-done: // the page has no record: nothing to hold
+		return true, ""
+	case <-time.After(5 * time.Second):
+		return false, "the first scrape never wrote"
+	}
+	for k := 0; k < 3; k++ {
+		page(second, httptest.NewRecorder())
+	}
+	close(hw.release)
+	select {
+	case <-done:
+	case <-time.After(5 * time.Second):
+		return false, "the held-up scrape did not finish within 5 s of its release"
+	}
+	got, want := stripTimes(hw.text()), stripTimes(alone.Body.String())
+	if got != want {
+		return false, fmt.Sprintf("/%s held up in its first write while /%s was scraped three times (%d label sets, the store unchanged): the held-up response is %q, the same scrape alone gives %q", first, second, nsets, firstN(got, 300), firstN(want, 300))
+	}
+	return true, ""
+}
+
+func firstN(s string, n int) string {
+	if len(s) > n {
+		return s[:n] + "..."
+	}
+	return s
+}
+
 func c22Run(r *runCtx, id string, f []string) {
+	if f[0] == "overlap" {
+		n, _ := strconv.Atoi(f[3])
+		ok, note := c22Overlap(f[1], f[2], n)
+		r.stat("overlap")
+		r.obs(id, "-")
+		if !ok {
+			r.replay(id, f...)
+			r.fail(id, "overlapping-scrapes-mix", "%s", note)
+		} else {
+			r.ok(id)
+		}
+		return
+	}
 	host, prefix := unhx(f[1]), unhx(f[2])
 	omitProg := f[3] == "1"
 	ms := decodeStore(f[4])
@@ -411,6 +530,10 @@ func (w *recordingWriter) Write(p []byte) (int, error) {
 func init() {
 	props["C22"] = &propImpl{
 		gen: func(g *genCtx) {
+			for _, pr := range [][2]string{{"varz", "graphite"}, {"graphite", "varz"}, {"varz", "varz"}, {"graphite", "graphite"}} {
+				g.emit("overlap", pr[0], pr[1], "1")
+				g.emit("overlap", pr[0], pr[1], "9")
+			}
 			n := 1000
 			if g.thorough() {
 				n = 20000
